@@ -66,15 +66,15 @@ func (t *tapRPC) SendRequest(ctx context.Context, addr string, req *tikvrpc.Requ
 func (t *tapRPC) Close() error { return nil }
 
 type respEnv struct {
-	name  string
-	pdc   *locate.CodecPDClient
-	rpc   client.Client
-	ctx   context.Context
-	codec *kcodec // nil for v1
-	seen  map[string]bool
+	name    string
+	pdc     *locate.CodecPDClient
+	rpc     client.Client
+	ctx     context.Context
+	codec   *kcodec // nil for v1
+	seen    map[string]bool
 	wireBad []string
-	saved *router.Region // a region looked up before a split, to provoke EpochNotMatch afterwards
-	tap   *tapRPC
+	saved   *router.Region // a region looked up before a split, to provoke EpochNotMatch afterwards
+	tap     *tapRPC
 }
 
 func newRespEnv(name string, m *mockCluster, mode apicodec.Mode, k *kcodec) *respEnv {
@@ -227,7 +227,9 @@ type respStep struct {
 func b(s string) []byte { return []byte(s) }
 
 func respScenario() []respStep {
-	mut := func(op kvrpcpb.Op, k, v string) *kvrpcpb.Mutation { return &kvrpcpb.Mutation{Op: op, Key: b(k), Value: b(v)} }
+	mut := func(op kvrpcpb.Op, k, v string) *kvrpcpb.Mutation {
+		return &kvrpcpb.Mutation{Op: op, Key: b(k), Value: b(v)}
+	}
 	S := func(t tikvrpc.CmdType, route string, note string, f func() interface{}) respStep {
 		return respStep{t, f, b(route), note, ""}
 	}
@@ -255,7 +257,9 @@ func respScenario() []respStep {
 		S(tikvrpc.CmdPessimisticLock, "b2", "pessimistic lock meets lock", func() interface{} {
 			return &kvrpcpb.PessimisticLockRequest{Mutations: []*kvrpcpb.Mutation{mut(kvrpcpb.Op_PessimisticLock, "b2", "")}, PrimaryLock: b("b2"), StartVersion: 31, ForUpdateTs: 31, LockTtl: 3000}
 		}),
-		S(tikvrpc.CmdScanLock, "a", "scan lock", func() interface{} { return &kvrpcpb.ScanLockRequest{MaxVersion: 100, StartKey: b("a"), EndKey: b("bz")} }),
+		S(tikvrpc.CmdScanLock, "a", "scan lock", func() interface{} {
+			return &kvrpcpb.ScanLockRequest{MaxVersion: 100, StartKey: b("a"), EndKey: b("bz")}
+		}),
 		S(tikvrpc.CmdScanLock, "a", "scan lock unbounded", func() interface{} { return &kvrpcpb.ScanLockRequest{MaxVersion: 100} }),
 		S(tikvrpc.CmdCheckTxnStatus, "a", "check txn status of the primary", func() interface{} {
 			return &kvrpcpb.CheckTxnStatusRequest{PrimaryKey: b("a"), LockTs: 10, CallerStartTs: 50, CurrentTs: 50}
@@ -263,8 +267,12 @@ func respScenario() []respStep {
 		S(tikvrpc.CmdCheckTxnStatus, "aa", "check txn status: no such txn", func() interface{} {
 			return &kvrpcpb.CheckTxnStatusRequest{PrimaryKey: b("aa"), LockTs: 11, CallerStartTs: 50, CurrentTs: 50}
 		}),
-		S(tikvrpc.CmdTxnHeartBeat, "a", "heart beat", func() interface{} { return &kvrpcpb.TxnHeartBeatRequest{PrimaryLock: b("a"), StartVersion: 10, AdviseLockTtl: 4000} }),
-		S(tikvrpc.CmdTxnHeartBeat, "aa", "heart beat: no lock", func() interface{} { return &kvrpcpb.TxnHeartBeatRequest{PrimaryLock: b("aa"), StartVersion: 10, AdviseLockTtl: 4000} }),
+		S(tikvrpc.CmdTxnHeartBeat, "a", "heart beat", func() interface{} {
+			return &kvrpcpb.TxnHeartBeatRequest{PrimaryLock: b("a"), StartVersion: 10, AdviseLockTtl: 4000}
+		}),
+		S(tikvrpc.CmdTxnHeartBeat, "aa", "heart beat: no lock", func() interface{} {
+			return &kvrpcpb.TxnHeartBeatRequest{PrimaryLock: b("aa"), StartVersion: 10, AdviseLockTtl: 4000}
+		}),
 		S(tikvrpc.CmdCheckSecondaryLocks, "b", "check secondary locks", func() interface{} {
 			return &kvrpcpb.CheckSecondaryLocksRequest{Keys: [][]byte{b("b"), b("b2")}, StartVersion: 10}
 		}),
@@ -336,9 +344,13 @@ func rawRespScenario() []respStep {
 		S(tikvrpc.CmdRawBatchGet, "a", "raw batch get", func() interface{} { return &kvrpcpb.RawBatchGetRequest{Keys: [][]byte{b("a"), b("c"), b("zz")}} }),
 		S(tikvrpc.CmdRawScan, "a", "raw scan", func() interface{} { return &kvrpcpb.RawScanRequest{StartKey: b("a"), EndKey: b("z"), Limit: 10} }),
 		S(tikvrpc.CmdRawScan, "a", "raw scan unbounded", func() interface{} { return &kvrpcpb.RawScanRequest{StartKey: b("b"), Limit: 10} }),
-		S(tikvrpc.CmdRawScan, "a", "raw reverse scan", func() interface{} { return &kvrpcpb.RawScanRequest{StartKey: b("z"), EndKey: b("a"), Limit: 10, Reverse: true} }),
+		S(tikvrpc.CmdRawScan, "a", "raw reverse scan", func() interface{} {
+			return &kvrpcpb.RawScanRequest{StartKey: b("z"), EndKey: b("a"), Limit: 10, Reverse: true}
+		}),
 		S(tikvrpc.CmdRawCompareAndSwap, "a", "raw cas", func() interface{} { return &kvrpcpb.RawCASRequest{Key: b("a"), Value: b("9"), PreviousValue: b("1")} }),
-		S(tikvrpc.CmdRawChecksum, "a", "raw checksum", func() interface{} { return &kvrpcpb.RawChecksumRequest{Ranges: []*kvrpcpb.KeyRange{{StartKey: b("a"), EndKey: b("z")}}} }),
+		S(tikvrpc.CmdRawChecksum, "a", "raw checksum", func() interface{} {
+			return &kvrpcpb.RawChecksumRequest{Ranges: []*kvrpcpb.KeyRange{{StartKey: b("a"), EndKey: b("z")}}}
+		}),
 		S(tikvrpc.CmdRawDelete, "a", "raw delete", func() interface{} { return &kvrpcpb.RawDeleteRequest{Key: b("b")} }),
 		S(tikvrpc.CmdRawBatchDelete, "a", "raw batch delete", func() interface{} { return &kvrpcpb.RawBatchDeleteRequest{Keys: [][]byte{b("c")}} }),
 		S(tikvrpc.CmdRawDeleteRange, "a", "raw delete range", func() interface{} { return &kvrpcpb.RawDeleteRangeRequest{StartKey: b("a"), EndKey: b("aa")} }),
@@ -349,10 +361,10 @@ func rawRespScenario() []respStep {
 // ---- answers mocktikv cannot produce: a synthesized store answer in wire form goes through the real codec and must
 // come out as the same answer built from logical keys ----
 type synthStep struct {
-	t     tikvrpc.CmdType
-	note  string
-	req   func() interface{}
-	resp  func(key, rkey func(string) []byte) interface{}
+	t    tikvrpc.CmdType
+	note string
+	req  func() interface{}
+	resp func(key, rkey func(string) []byte) interface{}
 }
 
 func synthScenario() []synthStep {
@@ -368,13 +380,17 @@ func synthScenario() []synthStep {
 	kr := func(a, z string) *coprocessor.KeyRange { return &coprocessor.KeyRange{Start: b(a), End: b(z)} }
 	return []synthStep{
 		{tikvrpc.CmdGet, "region error with bucket keys (F17.6)", func() interface{} { return &kvrpcpb.GetRequest{Key: b("d"), Version: 300} },
-			func(key, rkey func(string) []byte) interface{} { return &kvrpcpb.GetResponse{RegionError: rerr(key, rkey)} }},
+			func(key, rkey func(string) []byte) interface{} {
+				return &kvrpcpb.GetResponse{RegionError: rerr(key, rkey)}
+			}},
 		{tikvrpc.CmdSplitRegion, "split region key errors (F17.9)", func() interface{} { return &kvrpcpb.SplitRegionRequest{SplitKeys: [][]byte{b("dd")}} },
 			func(key, rkey func(string) []byte) interface{} {
 				return &kvrpcpb.SplitRegionResponse{Errors: []*kvrpcpb.KeyError{{Locked: lock(key, "dd", "d")}, {Conflict: &kvrpcpb.WriteConflict{Key: key("dd"), Primary: key("d"), StartTs: 1, ConflictTs: 2}}}}
 			}},
 		{tikvrpc.CmdGetHealthFeedback, "health feedback region error (F17.7) + context (F17.10)", func() interface{} { return &kvrpcpb.GetHealthFeedbackRequest{} },
-			func(key, rkey func(string) []byte) interface{} { return &kvrpcpb.GetHealthFeedbackResponse{RegionError: rerr(key, rkey)} }},
+			func(key, rkey func(string) []byte) interface{} {
+				return &kvrpcpb.GetHealthFeedbackResponse{RegionError: rerr(key, rkey)}
+			}},
 		{tikvrpc.CmdBroadcastTxnStatus, "broadcast txn status context (F17.11)", func() interface{} {
 			return &kvrpcpb.BroadcastTxnStatusRequest{TxnStatus: []*kvrpcpb.TxnStatus{{StartTs: 10, CommitTs: 40}}}
 		}, func(key, rkey func(string) []byte) interface{} { return &kvrpcpb.BroadcastTxnStatusResponse{} }},
@@ -397,7 +413,9 @@ func synthScenario() []synthStep {
 			func(key, rkey func(string) []byte) interface{} {
 				return &kvrpcpb.GetLockWaitInfoResponse{Entries: []*deadlock.WaitForEntry{{Txn: 1, WaitForTxn: 2, Key: key("d")}}}
 			}},
-		{tikvrpc.CmdCheckSecondaryLocks, "check secondary locks", func() interface{} { return &kvrpcpb.CheckSecondaryLocksRequest{Keys: [][]byte{b("d"), b("dd")}, StartVersion: 10} },
+		{tikvrpc.CmdCheckSecondaryLocks, "check secondary locks", func() interface{} {
+			return &kvrpcpb.CheckSecondaryLocksRequest{Keys: [][]byte{b("d"), b("dd")}, StartVersion: 10}
+		},
 			func(key, rkey func(string) []byte) interface{} {
 				return &kvrpcpb.CheckSecondaryLocksResponse{Locks: []*kvrpcpb.LockInfo{lock(key, "d", "d0")}}
 			}},
